@@ -85,11 +85,54 @@ def judge(rep, sc, line, res):
     return False
 
 
+# a stage that is stopped and continued from outside while the pipeline runs has not terminated: the shell resumes only
+# after it has really ended, with its status (controller stage: stop the last / the first stage, wait until it is stopped,
+# continue it, exit; the other stage goes on for a while, leaves a marker and exits 7 / 0).
+# Each scenario runs as the machine schedules it and with the shell held for 300 ms right after it has read the stop report
+# (schedule point fgwait_after_stop): by then the stage has been continued and the controller has exited, so the exits of the
+# other stages and the Continued report are pending together and the kernel hands the exits out first -- the order in which
+# the pinned code took the stale stop report for the end of the job (fixed in /repo, see known_findings.json).
+SC_CTL = ("while [ ! -s w.pid ]; do :; done; p=$(cat w.pid); kill -STOP $p; "
+          "while ! grep -q '^State:.T' /proc/$p/status; do :; done; kill -CONT $p; "
+          "while grep -q '^State:.T' /proc/$p/status; do :; done")
+SC_WRK = "echo $$ > w.pid; sleep 1; vmk W 0; exit %d"
+SC_LINES = [("sh ctl.sh | sh wrk.sh ; vmk 9 0 $?", 7, "7"), ("sh wrk.sh | sh ctl.sh ; vmk 9 0 $?", 5, "0"),
+            ("sh ctl.sh | vst m mode=none | sh wrk.sh ; vmk 9 0 $?", 3, "3")]
+SC_RUNS = (("c", ""), ("script", ""), ("c", "fgwait_after_stop=300"), ("script", "fgwait_after_stop=300"))
+
+
+def stopcont(rep, only=None):
+    for ent, delay in SC_RUNS:
+        sc = [t for t in SC_LINES if only is None or (t[0], ent, delay) == only]
+        cres = run_cases([{"entry": ent, "text": ln + ("\n" if ent == "script" else ""), "timeout": 40, "want_files": False,
+                           "env": ({"CICADA_VERIF_DELAY": delay} if delay else {}),
+                           "files": {"ctl.sh": SC_CTL + "\n", "wrk.sh": (SC_WRK % ex) + "\n"}} for ln, ex, _ in sc])
+        for (ln, ex, want), res in zip(sc, cres):
+            rep.cov["evaluations"] += 1
+            feat = {"n": ln.count("|") + 1, "kinds": ["stopped-and-continued"], "payload": "none", "exit": ex, "entry": ent,
+                    "held_after_stop": bool(delay)}
+            case = {"scenario": {"stopcont": True, "entry": ent, "delay": delay}, "text": ln, "status": res.get("status"),
+                    "stderr": res.get("stderr", "")[-300:]}
+            how = ent + (", shell held after the stop report" if delay else "")
+            ids = [r.get("id") for r in res.get("log", []) if r.get("h") == "mk" and r.get("id") in ("W", "9")]
+            mk = [r for r in res.get("log", []) if r.get("h") == "mk" and r.get("id") == "9"]
+            if res.get("timed_out"):
+                rep.violation("hang/stopcont", "`%s` (%s) did not terminate" % (ln, how), case, feat)
+            elif ids != ["W", "9"]:
+                rep.violation("resumed-early/stopcont", "`%s` (%s): the shell went on before the stage that had been stopped and continued "
+                              "ended (markers %s, status %s)" % (ln, how, ids, [m.get("argv") for m in mk]), case, feat)
+            elif mk[0].get("argv") != [want]:
+                rep.violation("status/stopcont", "`%s` (%s): status after the pipeline %s, expected %s" % (ln, how, mk[0].get("argv"), want), case, feat)
+
+
 def runner(rep, tier, seed, replay):
     rnd = random.Random(seed)
     if replay:
         with open(replay) as f:
             c = json.load(f)["case"]
+        if c.get("scenario", {}).get("stopcont"):
+            stopcont(rep, only=(c["text"], c["scenario"]["entry"], c["scenario"].get("delay", "")))
+            return rep.finish(rule="replay of one recorded stop / continue scenario")
         res = run_cases([{"entry": "c", "text": c["text"], "timeout": 60, "count_alive_at_exit": True}])[0]
         judge(rep, c["scenario"], c["text"], res)
         rep.cov["evaluations"] = 1
@@ -232,31 +275,7 @@ def runner(rep, tier, seed, replay):
                           % ("SIGCHLD handler enabled" if handler else "polling", o["status"]),
                           {"scenario": {"ctrlc": True, "handler": handler}, "status": o["status"]},
                           {"n": 3, "kinds": ["ctrl-c"], "payload": "none", "exit": 130, "entry": "prompt", "handler": handler})
-    # a stage that is stopped and continued from outside while the pipeline runs has not terminated: the shell resumes only
-    # after it has really ended, with its status (controller stage: stop the last / the first stage, wait until it is stopped,
-    # continue it, exit; the other stage goes on for a while, leaves a marker and exits 7 / 0)
-    ctl = ("while [ ! -s w.pid ]; do :; done; p=$(cat w.pid); kill -STOP $p; "
-           "while ! grep -q '^State:.T' /proc/$p/status; do :; done; kill -CONT $p; "
-           "while grep -q '^State:.T' /proc/$p/status; do :; done")
-    wrk = "echo $$ > w.pid; sleep 1; vmk W 0; exit %d"
-    sc = [("sh ctl.sh | sh wrk.sh ; vmk 9 0 $?", 7, "7"), ("sh wrk.sh | sh ctl.sh ; vmk 9 0 $?", 5, "0"),
-          ("sh ctl.sh | vst m mode=none | sh wrk.sh ; vmk 9 0 $?", 3, "3")]
-    for ent in ("c", "script"):
-        cres = run_cases([{"entry": ent, "text": ln + ("\n" if ent == "script" else ""), "timeout": 40, "want_files": False,
-                           "files": {"ctl.sh": ctl + "\n", "wrk.sh": (wrk % ex) + "\n"}} for ln, ex, _ in sc])
-        for (ln, ex, want), res in zip(sc, cres):
-            rep.cov["evaluations"] += 1
-            feat = {"n": ln.count("|") + 1, "kinds": ["stopped-and-continued"], "payload": "none", "exit": ex, "entry": ent}
-            case = {"scenario": {"stopcont": True, "entry": ent}, "text": ln, "status": res.get("status"), "stderr": res.get("stderr", "")[-300:]}
-            ids = [r.get("id") for r in res.get("log", []) if r.get("h") == "mk" and r.get("id") in ("W", "9")]
-            mk = [r for r in res.get("log", []) if r.get("h") == "mk" and r.get("id") == "9"]
-            if res.get("timed_out"):
-                rep.violation("hang/stopcont", "`%s` (%s) did not terminate" % (ln, ent), case, feat)
-            elif ids != ["W", "9"]:
-                rep.violation("resumed-early/stopcont", "`%s` (%s): the shell went on before the stage that had been stopped and continued "
-                              "ended (markers %s, status %s)" % (ln, ent, ids, [m.get("argv") for m in mk]), case, feat)
-            elif mk[0].get("argv") != [want]:
-                rep.violation("status/stopcont", "`%s` (%s): status after the pipeline %s, expected %s" % (ln, ent, mk[0].get("argv"), want), case, feat)
+    stopcont(rep)
     # (B) strace sample validated against the kernel descriptor model
     sample = rnd.sample(pick, min(len(pick), 25 if tier == "quick" else 200))
     runs = [c08.run_traced("vmk 0 0\n%s\nvmk 1 0\n" % render(s), "c02") for s in sample]
